@@ -368,6 +368,14 @@ where
         .map(|evals| evals_inner_product(layouter, scalar_chip, evals, &truncated_x1_powers))
         .collect::<Result<Vec<_>, Error>>()?;
 
+    #[cfg(feature = "verif-hooks")]
+    {
+        super::verif_hooks::arith_log::<S::F>("x1x2", &[x1.clone(), x2.clone()]);
+        for set in q_eval_sets.iter() {
+            super::verif_hooks::arith_log::<S::F>("q_eval_set", set);
+        }
+    }
+
     let f_com = transcript_gadget.read_point(layouter)?;
 
     let x3 = transcript_gadget.squeeze_challenge(layouter)?;
@@ -406,6 +414,11 @@ where
         })?;
 
     let x4 = transcript_gadget.squeeze_challenge(layouter)?;
+    #[cfg(feature = "verif-hooks")]
+    super::verif_hooks::arith_log::<S::F>(
+        "x3x4_f_eval",
+        &[x3.scalar.clone(), x4.clone(), f_eval.clone()],
+    );
     let truncated_x4_powers =
         truncated_powers::<S::F>(layouter, scalar_chip, &x4, q_coms.len() + 1)?;
 
@@ -439,6 +452,9 @@ where
             None,
         )
     };
+
+    #[cfg(feature = "verif-hooks")]
+    super::verif_hooks::arith_log::<S::F>("v", std::slice::from_ref(&v.scalar));
 
     let pi = transcript_gadget.read_point(layouter)?;
     let pi_msm = AssignedMsm::from_term(&one, &pi);
